@@ -12,6 +12,7 @@ pub(super) fn detect_cycles(ast: &Ast, diagnostics: &mut Diagnostics) {
         dependency_stack: Vec::new(),
         reported_cycles: HashSet::new(),
         dead_ends: HashSet::new(),
+        dead_end_anonymous_types: HashSet::new(),
         inconclusive_checks: 0,
         diagnostics,
     };
@@ -28,6 +29,7 @@ pub(super) fn detect_cycles(ast: &Ast, diagnostics: &mut Diagnostics) {
         debug_assert!(cycle_detector.dependency_stack.is_empty());
         cycle_detector.type_being_checked = Some((candidate.module_scoped_identifier(), candidate));
         cycle_detector.dead_ends.clear(); // Dead ends are relative to the type being checked.
+        cycle_detector.dead_end_anonymous_types.clear();
         candidate.check_for_cycles(&mut cycle_detector)
     }
 }
@@ -117,6 +119,10 @@ struct CycleDetector<'a> {
     /// exponentially for types that share dependencies), instead of the number of dependencies.
     dead_ends: HashSet<String>,
 
+    /// The same, for the results, sequences, and dictionaries we've completely checked (which are identified by their
+    /// addresses since they have no type-ids). Type aliases can make fields share these types too.
+    dead_end_anonymous_types: HashSet<*const ()>,
+
     /// Counts how many times (for the type currently being checked) a check ended without a definite 'no':
     /// either because it found a cycle, or because it was cut short by a type that's already on the dependency stack.
     inconclusive_checks: usize,
@@ -133,24 +139,37 @@ impl<'a> CycleDetector<'a> {
     }
 
     fn check_field_type_for_cycles(&mut self, type_ref: &'a TypeRef, origin: &'a Field) {
-        match type_ref.concrete_type() {
+        let (address, nested_type_refs) = match type_ref.concrete_type() {
             // For struct or enum types, we push them onto the stack, and attempt to recursively check them.
-            Types::Struct(struct_ref) => self.push_to_stack_and_check(struct_ref, origin),
-            Types::Enum(enum_ref) => self.push_to_stack_and_check(enum_ref, origin),
+            Types::Struct(struct_ref) => return self.push_to_stack_and_check(struct_ref, origin),
+            Types::Enum(enum_ref) => return self.push_to_stack_and_check(enum_ref, origin),
 
-            Types::ResultType(result_type) => {
-                self.check_field_type_for_cycles(&result_type.success_type, origin);
-                self.check_field_type_for_cycles(&result_type.failure_type, origin);
-            }
-
-            Types::Sequence(sequence) => self.check_field_type_for_cycles(&sequence.element_type, origin),
-            Types::Dictionary(dictionary) => {
-                self.check_field_type_for_cycles(&dictionary.key_type, origin);
-                self.check_field_type_for_cycles(&dictionary.value_type, origin);
-            }
+            // For result, sequence, and dictionary types, we check the types nested in them.
+            Types::ResultType(result_type) => (
+                result_type as *const ResultType as *const (),
+                vec![&result_type.success_type, &result_type.failure_type],
+            ),
+            Types::Sequence(sequence) => (sequence as *const Sequence as *const (), vec![&sequence.element_type]),
+            Types::Dictionary(dictionary) => (
+                dictionary as *const Dictionary as *const (),
+                vec![&dictionary.key_type, &dictionary.value_type],
+            ),
 
             // Primitive and custom types are terminal since they can't reference any other types.
-            Types::Primitive(_) | Types::CustomType(_) => {}
+            Types::Primitive(_) | Types::CustomType(_) => return,
+        };
+
+        // If we already know that the type we're checking can't be reached through this type, skip it.
+        if self.dead_end_anonymous_types.contains(&address) {
+            return;
+        }
+
+        let inconclusive_checks_before = self.inconclusive_checks;
+        for nested_type_ref in nested_type_refs {
+            self.check_field_type_for_cycles(nested_type_ref, origin);
+        }
+        if self.inconclusive_checks == inconclusive_checks_before {
+            self.dead_end_anonymous_types.insert(address);
         }
     }
 
